@@ -1,8 +1,8 @@
 ------------------------ MODULE MC_RobotWarehouse ------------------------
 (* Bounded model of RobotWarehouse on the smallest floor that has shelves (shelf_rows 1, shelf_columns 3,
    column_height 1: 4 x 10 cells, 4 shelves).  Init ranges over every reset state whose agents start in
-   StartCells (all directions, every request queue) and, when CarryInit, over the mid-game states in which
-   agent 0 already carries one shelf somewhere on the floor (so that deliveries, illegal forwards and unloads
+   StartCells (all directions, every request queue) and over the mid-game states in which agent 0 already
+   carries one shelf of CarryShelves somewhere on the floor (so that deliveries, illegal forwards and unloads
    are within a few steps).  Next plays ANY joint action (legal or not) and keeps stepping after LAST; the
    replacement request is a nondeterministic choice.  The state record has the shape of the recorded State,
    so the invariants are the very operators the trace clauses use. *)
@@ -11,7 +11,8 @@ EXTENDS RobotWarehouse
 CONSTANTS MaxDepth,      \* depth bound on step_count (state constraint)
           StartRows,     \* agents start in StartRows \X StartCols
           StartCols,
-          CarryInit      \* BOOLEAN: add the mid-game "already carrying" initial states
+          CarryCells,    \* cells on which agent 0 may already carry a shelf in the mid-game initial states
+          CarryShelves   \* shelves (1-based ids) agent 0 may already carry in the mid-game initial states ({} = none)
 VARIABLES s, last
 vars == <<s, last>>
 
@@ -25,7 +26,10 @@ MCCfg2 == [shelf_rows |-> 1, shelf_columns |-> 3, column_height |-> 1, num_agent
            request_queue_size |-> 1, time_limit |-> 3]
 
 QuickRows == 0..3    QuickCols == 0..9        \* every cell of the 4 x 10 floor
-PairRows  == 1..2    PairCols  == 0..3        \* two agents: around the left shelf cluster
+OneShelf == {1}      AllShelves == 1..4       NoShelf == {}
+PairRows  == 1..2    PairCols  == 2..3        \* two agents: shelf slot (1,2) and the three aisle cells next to it
+QuickCells == QuickRows \X QuickCols   PairCells == PairRows \X PairCols
+SecondShelf == {2}                            \* the shelf whose slot is (1,2)
 
 (* ---------- building a State record ---------- *)
 Home == [j1 \in 1..NumShelves |-> CHOOSE rc \in SlotSet : SlotRank(rc) = j1]      \* shelf j1 - 1 at its slot
@@ -62,11 +66,11 @@ CarryStatesOf(j1, rc) ==
       ap \in { f \in [1..NA -> FloorCells] :
                  f[1] = rc /\ (\A m, n \in 1..NA : m # n => f[m] # f[n]) /\ (\A o \in 2..NA : f[o] \in StartCells) },
       ad \in [1..NA -> 0..3], q \in Queues }
-FreeFor(j1) == { c \in FloorCells : \A j2 \in 1..NumShelves : j2 # j1 => Home[j2] # c }
-CarryStates == UNION { UNION { CarryStatesOf(j1, rc) : rc \in FreeFor(j1) } : j1 \in 1..NumShelves }
+FreeFor(j1) == { c \in CarryCells : \A j2 \in 1..NumShelves : j2 # j1 => Home[j2] # c }
+CarryStates == UNION { UNION { CarryStatesOf(j1, rc) : rc \in FreeFor(j1) } : j1 \in CarryShelves }
 
 Init ==
-  /\ s \in ResetStates \cup (IF CarryInit THEN CarryStates ELSE {})
+  /\ s \in ResetStates \cup CarryStates
   /\ last = [type |-> FIRST, reward |-> 0, a |-> [k1 \in 1..NA |-> 0], bad |-> {}, pl |-> FALSE]
 
 (* ---------- the step ---------- *)
